@@ -2,6 +2,7 @@ package simrt
 
 import (
 	"math/rand"
+	randv2 "math/rand/v2"
 	"time"
 )
 
@@ -149,4 +150,84 @@ func RandShuffle(n int, swap func(i, j int)) {
 		return
 	}
 	rand.Shuffle(n, swap)
+}
+
+// math/rand/v2 replacements.
+
+func Rand2IntN(n int) int {
+	if w := W; w != nil {
+		return w.randN(n)
+	}
+	return randv2.IntN(n)
+}
+
+func Rand2Int() int {
+	if w := W; w != nil {
+		return w.randN(1 << 62)
+	}
+	return randv2.Int()
+}
+
+func Rand2Int32() int32 {
+	if w := W; w != nil {
+		return int32(w.randN(1 << 31))
+	}
+	return randv2.Int32()
+}
+
+func Rand2Int32N(n int32) int32 {
+	if w := W; w != nil {
+		return int32(w.randN(int(n)))
+	}
+	return randv2.Int32N(n)
+}
+
+func Rand2Int64() int64 {
+	if w := W; w != nil {
+		return int64(w.randN(1 << 62))
+	}
+	return randv2.Int64()
+}
+
+func Rand2Int64N(n int64) int64 {
+	if w := W; w != nil {
+		return int64(w.randN(int(n)))
+	}
+	return randv2.Int64N(n)
+}
+
+func Rand2Uint32() uint32 {
+	if w := W; w != nil {
+		return uint32(w.randN(1 << 32))
+	}
+	return randv2.Uint32()
+}
+
+func Rand2Uint64() uint64 {
+	if w := W; w != nil {
+		return uint64(w.randN(1<<62))<<2 | uint64(w.randN(4))
+	}
+	return randv2.Uint64()
+}
+
+func Rand2Float64() float64 {
+	if w := W; w != nil {
+		return float64(w.randN(1<<53)) / (1 << 53)
+	}
+	return randv2.Float64()
+}
+
+func Rand2Perm(n int) []int {
+	if W != nil {
+		return RandPerm(n)
+	}
+	return randv2.Perm(n)
+}
+
+func Rand2Shuffle(n int, swap func(i, j int)) {
+	if W != nil {
+		RandShuffle(n, swap)
+		return
+	}
+	randv2.Shuffle(n, swap)
 }
